@@ -361,7 +361,9 @@ class SymbolTable(OpTrait):
         SymbolTable parent.
         """
         anchor: Operation | None = op
-        while anchor is not None and not anchor.has_trait(SymbolTable):
+        while anchor is not None and not anchor.has_trait(
+            SymbolTable, value_if_unregistered=False
+        ):
             anchor = anchor.parent_op()
         if anchor is None:
             raise ValueError(f"Operation {op} has no SymbolTable ancestor")
